@@ -53,7 +53,7 @@ func try(name, dsl string, typ, rel, user string, tuples [][3]string) {
 	}
 }
 
-func tryProto(name string, editor *openfgav1.Userset, typ, rel, user string) {
+func tryProto(name string, editor *openfgav1.Userset, typ, rel, user string, selfRef bool) {
 	ds := memory.New()
 	s := server.MustNewServerWithOpts(server.WithDatastore(ds), server.WithExperimentals("pipeline_list_objects"), server.WithListObjectsPipelineEnabled(true))
 	ctx := context.Background()
@@ -63,7 +63,13 @@ func tryProto(name string, editor *openfgav1.Userset, typ, rel, user string) {
 	tds := []*openfgav1.TypeDefinition{{Type: "user"}, {Type: "group",
 		Relations: map[string]*openfgav1.Userset{"editor": editor, "viewer": this()},
 		Metadata: &openfgav1.Metadata{Relations: map[string]*openfgav1.RelationMetadata{
-			"editor": {DirectlyRelatedUserTypes: []*openfgav1.RelationReference{{Type: "user"}, {Type: "group", RelationOrWildcard: &openfgav1.RelationReference_Relation{Relation: "editor"}}}},
+			"editor": {DirectlyRelatedUserTypes: func() []*openfgav1.RelationReference {
+				r := []*openfgav1.RelationReference{{Type: "user"}}
+				if selfRef {
+					r = append(r, &openfgav1.RelationReference{Type: "group", RelationOrWildcard: &openfgav1.RelationReference_Relation{Relation: "editor"}})
+				}
+				return r
+			}()},
 			"viewer": {DirectlyRelatedUserTypes: []*openfgav1.RelationReference{{Type: "group", RelationOrWildcard: &openfgav1.RelationReference_Relation{Relation: "editor"}}}},
 		}}}}
 	_, err := s.WriteAuthorizationModel(ctx, &openfgav1.WriteAuthorizationModelRequest{StoreId: cs.GetId(), TypeDefinitions: tds, SchemaVersion: "1.1"})
@@ -99,10 +105,11 @@ func main() {
 	un := func(k ...*openfgav1.Userset) *openfgav1.Userset {
 		return &openfgav1.Userset{Userset: &openfgav1.Userset_Union{Union: &openfgav1.Usersets{Child: k}}}
 	}
-	tryProto("P1 editor=this", this(), "group", "viewer", "user:z")
-	tryProto("P2 editor=union(this,this)", un(this(), this()), "group", "viewer", "user:z")
-	tryProto("P3 editor=union(union(this,this),this)", un(un(this(), this()), this()), "group", "viewer", "user:z")
-	tryProto("P4 editor=union(this,this) list editor", un(this(), this()), "group", "editor", "user:z")
+	tryProto("P0 editor=union(this,this) [user] only, list editor", un(this(), this()), "group", "editor", "user:z", false)
+	tryProto("P1 editor=this", this(), "group", "viewer", "user:z", true)
+	tryProto("P2 editor=union(this,this)", un(this(), this()), "group", "viewer", "user:z", true)
+	tryProto("P3 editor=union(union(this,this),this)", un(un(this(), this()), this()), "group", "viewer", "user:z", true)
+	tryProto("P4 editor=union(this,this) list editor", un(this(), this()), "group", "editor", "user:z", true)
 
 	try("A orig", `model
   schema 1.1
